@@ -31,6 +31,7 @@ import (
 	"golang.org/x/sync/errgroup"
 
 	dherrors "github.com/dolthub/dolt/go/libraries/utils/errors"
+	"github.com/dolthub/dolt/go/libraries/utils/verifhook"
 	"github.com/dolthub/dolt/go/store/hash"
 )
 
@@ -226,6 +227,7 @@ func (op *conjoinOperation) updateManifest(ctx context.Context, behavior dherror
 				appendix: upstream.appendix,
 			}
 
+			verifhook.At("conjoin.beforeManifest")
 			updated, err := mm.Update(ctx, behavior, upstream.lock, newContents, stats, nil)
 			if err != nil {
 				return manifestContents{}, func() {}, err
